@@ -148,6 +148,37 @@ pub fn gen_nid(rng: &mut Rng, thorough: bool, out: &mut String) {
     nid_deser(&format!("0x{}é", "a".repeat(62)), out);
 }
 
+/// re-execute one `nid` line (used by replay)
+pub fn nid_exec(op: &str, inp: &[u8], out: &mut String) {
+    match op {
+        "parse" => {
+            let res = guard(|| NodeId::parse(inp));
+            let o = match res {
+                None => "panic".into(),
+                Some(Ok(id)) => hx(&id.raw()),
+                Some(Err(_)) => "err".into(),
+            };
+            writeln!(out, "nid op=parse in={} out={}", hx(inp), o).unwrap();
+        }
+        "deser" => nid_deser(&String::from_utf8_lossy(inp), out),
+        "new" | "ser" | "debug" | "display" => {
+            let Ok(raw) = <[u8; 32]>::try_from(inp) else { return };
+            let id = NodeId::new(&raw);
+            match op {
+                "new" => {
+                    let id2: NodeId = raw.into();
+                    let conv = id.raw() == raw && id.as_ref() == &raw[..] && id == raw && id2 == id;
+                    writeln!(out, "nid op=new in={} out={} conv={}", hx(&raw), hx(&id.raw()), conv as u8).unwrap();
+                }
+                "ser" => writeln!(out, "nid op=ser in={} out={}", hx(&raw), hx(serde_json::to_string(&id).unwrap().as_bytes())).unwrap(),
+                "debug" => writeln!(out, "nid op=debug in={} out={}", hx(&raw), hx(format!("{id:?}").as_bytes())).unwrap(),
+                _ => writeln!(out, "nid op=display in={} out={}", hx(&raw), hx(format!("{id}").as_bytes())).unwrap(),
+            }
+        }
+        _ => {}
+    }
+}
+
 fn nid_deser(s: &str, out: &mut String) {
     let j = serde_json::to_string(s).unwrap();
     let r = guard(|| serde_json::from_str::<NodeId>(&j));
@@ -205,7 +236,7 @@ pub fn gen_ck(rng: &mut Rng, thorough: bool, out: &mut String) {
     }
 }
 
-fn ck_line(kind: &str, inp: &[u8], out: &mut String) {
+pub fn ck_line(kind: &str, inp: &[u8], out: &mut String) {
     let mut buf = inp.to_vec();
     let r = guard(|| {
         let k = if kind == "secp" {
